@@ -18,7 +18,7 @@ Print Assumptions C14_stop_cancels_all.
 Theorem C14_consume_confirmed_tag : forall s c v tag pre tpre f tpost rest,
   c <> 0%nat -> get_chan (s_chans s) c = Some v -> conn_healthy s -> s_io s = true ->
   s_sendfail s = false ->
-  c_state v = OPEN -> c_errs v = [] -> c_req v = [] -> c_resp v = [] ->
+  c_state v = OPEN -> c_errs v = [] -> c_req v = [] -> c_resp v = [] -> c_ret v = None ->
   forallb (fun t => forallb (quiet c [NConsumeOk]) t) pre = true ->
   forallb (quiet c [NConsumeOk]) tpre = true -> f_name f = NConsumeOk ->
   exists s' v',
@@ -38,3 +38,28 @@ From AV Require Import Model.Src Gen.GenSrc Model.SrcShape.
 Theorem C14_source_tags_in_place : tags_shape_ok = true.
 Proof. vm_compute. reflexivity. Qed.
 Print Assumptions C14_source_tags_in_place.
+
+(* ---------- a consumer being registered while another thread dispatches ---------- *)
+From AV Require Import Model.ConsumeReg Proofs.ConsumeRegP.
+(* one thread in basic.consume, one in process_data_events, the broker delivering as soon as it
+   has seen the request - statement by statement, EVERY schedule: the dispatcher never fails to
+   find the callback of a message it holds *)
+Theorem C14_first_delivery_finds_its_callback : forall sched, g_keyerr (reg_run true sched) = false.
+Proof. exact no_keyerror_any_schedule. Qed.
+Print Assumptions C14_first_delivery_finds_its_callback.
+
+(* read off the source on every run: request, tag and callback in one section under the channel
+   lock; the lookup under the same lock *)
+Theorem C14_source_register_and_lookup_locked : consume_shape_ok = true.
+Proof. vm_compute. reflexivity. Qed.
+Print Assumptions C14_source_register_and_lookup_locked.
+
+(* the lookup without the lock (the code before fix cf7f253): KeyError in the consuming thread *)
+Theorem C14_unlocked_lookup_refuted : exists sched, g_keyerr (reg_run false sched) = true.
+Proof. exact unlocked_lookup_refuted. Qed.
+Print Assumptions C14_unlocked_lookup_refuted.
+
+Example C14_register_nonvacuous :
+  let s := reg_run true [AReg; AReg; AEnv; ADisp; ADisp; AReg; AReg; ADisp; ADisp; ADisp] in
+  g_called s = 1%nat /\ g_keyerr s = false.
+Proof. exact reg_nonvacuous. Qed.
